@@ -16,7 +16,10 @@ RULE = ('strings generated from the address grammars (dotted quads with 1..5 par
         'hex/octal spellings; IPv6 with 1..9 groups, every placement of "::", embedded IPv4, scope ids of length '
         '0..17; CIDRs with prefix -1..129, netmask/hostmask forms, missing/empty/doubled/extra slashes, int() '
         'decorations; MACs with 5..7 groups and every separator; integers around each range end in str and int '
-        'form), single-character mutations of them, NUL insertions and arbitrary printable/Unicode strings. Every '
+        'form), single-character mutations of them, NUL insertions, well-formed spellings in which Unicode '
+        'stand-ins (every character whose lower/upper/casefold/NFKC/digit form lies in the address alphabet: '
+        'ligatures, fullwidth and mathematical forms, superscripts ...; table read from unicodedata) replace one or '
+        'more characters, and arbitrary printable/Unicode strings. Every '
         'string is put to all nine validators and to int(). A case is non-trivial when at least one validator '
         'accepts it on both sides, or it is a grammar-generated near miss (one rule of the grammar broken); '
         'distinct by the string itself')
@@ -478,6 +481,119 @@ def mutate(rng, s):
     return ''.join(l)
 
 
+# --------------------------------------------------------------------------
+# Unicode stand-ins: every character that some str transformation (lower, upper, casefold, title, swapcase,
+# NFKC, NFKD, or its decimal/digit value) turns into one or more characters of the address alphabet.  Read from
+# the running interpreter (unicodedata), never hard-coded: ligatures (U+FB00 'ff'), fullwidth forms, Kelvin sign,
+# long s, mathematical alphanumerics, superscripts, circled digits, small/fullwidth ':' '.' '/' '%' ...
+# A validator that normalises its argument with a transformation that is not the identity on non-ASCII text
+# accepts a spelling in which such a character stands for one or more characters of a valid one.
+
+CONF_ALPHABET = set('0123456789abcdefABCDEFxX:./%+-_ ')
+_CONF = None
+
+
+def confusables():
+    """{ASCII expansion (1..4 address characters): sorted list of non-ASCII characters standing for it}"""
+    global _CONF
+    if _CONF is not None:
+        return _CONF
+    import unicodedata
+    table = {}
+
+    def note(c, f):
+        if f and f != c and len(f) <= 4 and all(ch in CONF_ALPHABET for ch in f):
+            table.setdefault(f, set()).add(c)
+    for cp in range(128, 0x110000):
+        if 0xD800 <= cp < 0xE000:
+            continue
+        c = chr(cp)
+        forms = {c.lower(), c.upper(), c.casefold(), c.title(), c.swapcase()}
+        nk = unicodedata.normalize('NFKC', c)
+        if nk != c:
+            forms.update((nk, nk.lower(), nk.casefold(), unicodedata.normalize('NFKD', c)))
+        for f in forms:
+            note(c, f)
+        for fn in (unicodedata.decimal, unicodedata.digit):
+            v = fn(c, None)
+            if v is not None:
+                note(c, str(v))
+        v = unicodedata.numeric(c, None)
+        if v is not None and v == int(v) and 0 <= v <= 300:
+            note(c, str(int(v)))
+    _CONF = {k: sorted(v) for k, v in table.items()}
+    return _CONF
+
+
+def confuse(rng, s):
+    """Replace one or more substrings of `s` by a Unicode stand-in.  A multi-character stand-in ('ff', '10',
+    '1.', ...) is first planted where that keeps the spelling inside the grammar (digit over digit, hex letter
+    over hex digit, punctuation over itself) and then substituted."""
+    tab = confusables()
+
+    def fits(k, i):
+        if i + len(k) > len(s):
+            return False
+        for kc, sc in zip(k, s[i:]):
+            if kc in '0123456789':
+                if sc not in '0123456789':
+                    return False
+            elif kc in 'abcdefABCDEF':
+                if sc not in '0123456789abcdefABCDEF':
+                    return False
+            elif kc != sc:
+                return False
+        return True
+    if rng.random() < 0.5:
+        multi = [k for k in tab if len(k) > 1]
+        cats = [[k for k in multi if any(c.isalpha() for c in k)],
+                [k for k in multi if k.isdigit()],
+                [k for k in multi if not k.isalnum()]]
+        cats = [[(k, i) for k in cat for i in range(len(s)) if fits(k, i)] for cat in cats]
+        cats = [c for c in cats if c]
+        if cats:
+            k, i = rng.choice(rng.choice(cats))
+            s = s[:i] + k + s[i + len(k):]
+            if rng.random() < 0.8:
+                return s[:i] + rng.choice(tab[k]) + s[i + len(k):]
+    occ = [(i, k) for k in tab for i in range(len(s)) if s.startswith(k, i)]
+    if not occ:
+        return s
+    weights = [4 if len(k) > 1 else 1 for _, k in occ]
+    n = 1 if rng.random() < 0.6 else rng.randrange(1, 7)
+    for _ in range(n):
+        i, k = rng.choices(occ, weights)[0]
+        if not s.startswith(k, i):
+            continue        # an earlier substitution moved or consumed it
+        s = s[:i] + rng.choice(tab[k]) + s[i + len(k):]
+        if len(k) > 1:
+            break           # positions after i have shifted
+    return s
+
+
+def valid_mac(rng):
+    s = ':'.join(rng.choice(HEXL) + rng.choice(HEXL) for _ in range(6))
+    return s.upper() if rng.random() < 0.3 else s
+
+
+def g_confusable(rng):
+    """A well-formed spelling of one of the kinds with Unicode stand-ins substituted."""
+    k = rng.randrange(6)
+    if k == 0:
+        base = valid_quad(rng)
+    elif k == 1:
+        base = g_v6(rng, clean=True)[0] + ('%eth0' if rng.random() < 0.2 else '')
+    elif k == 2:
+        ver = rng.choice([4, 6])
+        base = (valid_quad(rng) if ver == 4 else g_v6(rng, clean=True)[0]) + '/' + \
+            (str(rng.randrange(0, 33 if ver == 4 else 129)) if rng.random() < 0.7 else mask_text(rng, ver))
+    elif k in (3, 4):
+        base = valid_mac(rng)
+    else:
+        base = str(rng.choice(INT_EDGE[2:18]))
+    return confuse(rng, base), 'confusable/' + ['quad', 'v6', 'cidr', 'mac', 'mac', 'int'][k]
+
+
 FIXED = [
     '', ' ', '.', ':', '::', ':::', '/', '%', '::%', '::%a', '1.2.3.4', '0.0.0.0', '255.255.255.255', '256.0.0.0',
     '1.2.3.04', '1.2.3.4 x', '1.2.3.4\n', '1', '1.2', '1.2.3', '0x7f.1', '0x', '08', '4294967295', '4294967296',
@@ -489,6 +605,7 @@ FIXED = [
     '::/128', '::/129', '::/8/8', '::/ffff::', '::/::ffff', '::/ff00:1::', '::/255.0.0.0', '1.2.3.4/::',
     'fe80::1%eth0/64', 'aa:bb:cc:dd:ee:ff', 'aa:bb:cc:dd:ee:ff\n', 'AA:BB:CC:DD:EE:FF', 'aa-bb-cc-dd-ee-ff',
     'aa:bb:cc:dd:ee', 'aa:bb:cc:dd:ee:ff:00', '0', '65535', '65536', '-1', '255', '256', ' 80 ', '+80', '8_0',
+    '52:54:00:cf:2d:\ufb00', '１.2.3.4', '1.2.3.4／8', '::１', 'ＡＡ:bb:cc:dd:ee:ff', '８０',
     '\x00', '1.2.3.4\x00', '::1\x00', '10.0.0.0/8\x00', '\x001', '1.2.3.4 \x00',
 ]
 
@@ -497,7 +614,8 @@ def gen_strings(ctx, rng, n):
     """Yield (tag, string, near_miss) triples."""
     for s in FIXED:
         yield 'fixed', s, True
-    fams = [g_quad, g_quad, g_v6, g_v6, g_v6, g_cidr, g_cidr, g_cidr, g_mac, g_mac, g_intstr, g_printable]
+    fams = [g_quad, g_quad, g_v6, g_v6, g_v6, g_cidr, g_cidr, g_cidr, g_mac, g_mac, g_intstr, g_printable,
+            g_confusable, g_confusable]
     for _ in range(n):
         f = rng.choice(fams)
         s, tag = f(rng)
